@@ -8,7 +8,16 @@ def _c32_nontrivial(req, out):
 
 CFG = {
     "level": "proof",
-    "level_text": "PLACEHOLDER",
+    "level_text": "Lean 4 theorems over an executable model of SimpleJsonIndex built by the (proved engine-independent) "
+                  "simple-cursor builder: for every document rendered from a JSON value tree with arbitrary RFC 8259 "
+                  "whitespace — structural_positions / structural_pos / structural_count list exactly the { } [ ] , : "
+                  "tokens outside strings in order (structural_list_eq); structural_index and structural_pos are mutually "
+                  "inverse (index_pos_inverse); find_close at a container's open bracket returns its own close bracket "
+                  "(find_close_eq); skip_value at a value's first byte returns the byte after its last (skip_value_eq). "
+                  "find_close_eq / skip_value_eq are stated for a value occupying a token segment d.toks = A ++ v.toks ++ B "
+                  "(every sub-value does, by construction of the renderer; that enumeration itself is not a Lean theorem) "
+                  "and skip_value_eq for numbers assumes the next byte is not in [0-9.eE+-] (true after any value in a "
+                  "document). Tie: every model function is diffed against the Rust implementation on generated documents.",
     "level_note": "Callees taken at their proved specifications: select_in_word (C02), BalancedParens::find_close (C04), "
                   "simple-cursor index = reference (C05).",
     "technique": "Lean 4 proof over an executable model of SimpleJsonIndex; differential correspondence vs compiled model",
@@ -20,5 +29,11 @@ CFG = {
     "allow_bv_decide": False,
     "nontrivial": _c32_nontrivial,
     "rule": "request = one document + a list of byte positions; distinct request lines with ≥ 2 document bytes and ≥ 1 position",
-    "explanation": "PLACEHOLDER",
+    "required_theorems": ["SV.Props.C32.structural_list_eq", "SV.Props.C32.index_pos_inverse",
+                          "SV.Props.C32.find_close_eq", "SV.Props.C32.skip_value_eq"],
+    "explanation": "Lean theorems: structural list, index/pos inverse, matching close bracket, value skipping for every "
+                   "rendered JSON value tree; correspondence: SimpleJsonIndex::{build, structural_count, structural_positions, "
+                   "structural_pos, structural_index, find_close, skip_value, children} vs the model at every byte position "
+                   "of small documents and at every structural / value-start position (sampled) of large ones, plus a "
+                   "malformed stream (mutations, truncations, token soup)",
 }
